@@ -1,6 +1,7 @@
 import OsuProofs.SourceTerms
 import OsuProofs.Newton
 import OsuProofs.FixedPoint
+import OsuProofs.CharnockMono
 /-
 C10 — roughness lengths satisfy their defining implicit equations.
 Model: `OsuModel/Solvers.lean` (both solvers), `OsuModel/SourceTerms.lean` (Charnock map, Janssen
@@ -70,6 +71,21 @@ values are `f` at the bracket ends, the bracket is ordered, and once the root is
 current iterate lies inside and the end values have opposite signs -/
 theorem newtonRaphson_invariant (f : ℝ → ℝ) (cfg : NRConfig ℝ) (n : ℕ) (s s' : NRState ℝ) (h : Inv f s)
     (hs : nrStep f cfg n s = .continue s') : Inv f s' := nrStep_inv f cfg n s s' h hs
+
+/-- without the viscous term the exact Charnock roughness increases with the wind speed: exact
+solutions `z = α (κ U / ln(h/z))² / g` in the physical range `(0, h/e²)` are ordered like their
+wind speeds (`φ(z) = z ln²(h/z)` is strictly increasing there) -/
+theorem charnock_roughness_increases (alpha kappa g h U1 U2 z1 z2 : ℝ) (hh : 0 < h) (ha : 0 < alpha) (hk : 0 < kappa)
+    (hg : 0 < g) (hU1 : 0 ≤ U1) (hU : U1 < U2)
+    (hz1 : z1 ∈ Set.Ioo 0 (h / Real.exp 2)) (hz2 : z2 ∈ Set.Ioo 0 (h / Real.exp 2))
+    (hf1 : z1 = alpha * (kappa * U1 / Real.log (h / z1)) ^ 2 / g)
+    (hf2 : z2 = alpha * (kappa * U2 / Real.log (h / z2)) ^ 2 / g) : z1 < z2 :=
+  Osu.Charnock.roughness_increases alpha kappa g h U1 U2 z1 z2 hh ha hk hg hU1 hU hz1 hz2 hf1 hf2
+
+/-- … and so does the drag coefficient, which increases with the roughness -/
+theorem charnock_drag_increases (kappa h z1 z2 : ℝ) (hk : 0 < kappa) (hh : 0 < h) (hz1 : 0 < z1) (hz : z1 < z2) (hz2 : z2 < h) :
+    dragCoefficient kappa h z1 < dragCoefficient kappa h z2 :=
+  Osu.Charnock.drag_increases kappa h z1 z2 hk hh hz1 hz hz2
 
 example : Inv (fun x : ℝ => x - 1) (nrInit (fun x : ℝ => x - 1) 2) := inv_init _ _
 
